@@ -465,6 +465,54 @@ func streamC18(c *Ctx) {
 			c.Count("nil-container")
 		}
 	}
+	// named types over the canonical kinds (time.Duration, type Label string, …) as elements of slices and arrays, as map
+	// values and struct fields: they normalise to the canonical type of their kind, exactly as the same values of the
+	// unnamed kind do
+	{
+		type label string
+		type score float64
+		type cnt uint32
+		type flag bool
+		type rec struct {
+			L  label   `clover:"l"`
+			Ls []label `clover:"ls"`
+			D  []time.Duration
+		}
+		cases := []struct {
+			name         string
+			named, plain interface{}
+		}{
+			{"[]time.Duration", []time.Duration{1, 2 * time.Second}, []int64{1, int64(2 * time.Second)}},
+			{"[2]label", [2]label{"a", "b"}, [2]string{"a", "b"}},
+			{"[]score", []score{1.5, 2}, []float64{1.5, 2}},
+			{"[]cnt", []cnt{7}, []uint32{7}},
+			{"[]flag", []flag{true, false}, []bool{true, false}},
+			{"map[string]label", map[string]label{"k": "v"}, map[string]string{"k": "v"}},
+			{"struct with named fields", rec{L: "x", Ls: []label{"y"}, D: []time.Duration{3}}, map[string]interface{}{"l": "x", "ls": []string{"y"}, "D": []int64{3}}},
+			{"pointer to a slice of a named type", &[]label{"p"}, []string{"p"}},
+		}
+		for _, cs := range cases {
+			c.Evals++
+			rn, en, pn := safeNormalize(cs.named)
+			rp, ep, _ := safeNormalize(cs.plain)
+			bad := ""
+			switch {
+			case pn != "":
+				bad = "Normalize panicked: " + pn
+			case en != nil || ep != nil:
+				bad = fmt.Sprint("Normalize failed: ", en, ep)
+			case strings.Contains(canonValue(rn), "?"):
+				bad = "the result holds values of non-canonical Go types: " + canonValue(rn)
+			case canonValue(rn) != canonValue(rp):
+				bad = "named types normalise differently from their kind: " + canonValue(rn) + " / " + canonValue(rp)
+			}
+			if bad != "" {
+				c.Violation(&Replay{Stream: "norm", Case: []interface{}{J{"k": "named-kinds", "case": cs.name}}, Actual: []string{bad}, Note: "values of named types over the canonical kinds are not normalised to the canonical types"})
+				return
+			}
+			c.Count("named-kind-case")
+		}
+	}
 	// binary data: a byte SLICE - plain, of a named type, behind a pointer, inside a struct or a map - is kept as a []byte
 	{
 		type blob []byte
